@@ -52,6 +52,12 @@ pub fn apply(name: &str, prog: &[Op], facts: &mut Facts, effects: &mut Vec<Strin
                 });
             }
             Op::Emit(e) => effects.push(format!("{name}:{e}")),
+            Op::PutK(k, v) => {
+                facts.insert(("kk".to_string(), crate::dag::key_alpha()[k as usize].clone()), vec![v]);
+            }
+            Op::DelK(k) => {
+                facts.remove(&("kk".to_string(), crate::dag::key_alpha()[k as usize].clone()));
+            }
         }
     }
     Ok(())
@@ -236,4 +242,24 @@ impl<'a> Ref<'a> {
             q.push_back((crate::dag::merge_id(self.dag.merge_rank, a.0, b.0), a.1.max(b.1) + 1));
         }
     }
+}
+
+/// Model of `policy::rich_view` over a plain map.
+pub fn rich_view_model(f: &Facts) -> Vec<(String, String)> {
+    let mut out = Vec::new();
+    for (n, k, v) in dump(f) {
+        out.push((format!("dump {n}{k:?}"), format!("{v:?}")));
+    }
+    let alpha = crate::dag::key_alpha();
+    for (i, key) in alpha.iter().enumerate() {
+        let exact = f.get(&("kk".to_string(), key.clone())).cloned();
+        out.push((format!("query kk#{i}"), format!("{:?}", exact)));
+        let res: Vec<(Vec<Vec<u8>>, Vec<u8>)> = f
+            .iter()
+            .filter(|((n, k), _)| n == "kk" && k.len() >= key.len() && k[..key.len()] == key[..])
+            .map(|((_, k), v)| (k.clone(), v.clone()))
+            .collect();
+        out.push((format!("prefix kk#{i}"), format!("{res:?}")));
+    }
+    out
 }
